@@ -106,9 +106,14 @@ def _build_akai(inputs):
     block = list(inputs["block"])
 
     def run():
-        ad = SegmentAllocationTableAdapter(None, Int16ul[len(block)])
-        sat = ad._decode(list(block), {}, "")
-        out = {}
+        # ONE adapter object decodes the same words for two different partition streams (as the partition struct does for
+        # every partition of an image): each table must be bound to ITS stream
+        import io
+        sa, sb = io.BytesIO(b"A" * 16), io.BytesIO(b"B" * 16)
+        ad = SegmentAllocationTableAdapter(lambda ctx: ctx["s"], Int16ul[len(block)])
+        first = ad._decode(list(block), {"s": sa}, "")
+        sat = ad._decode(list(block), {"s": sb}, "")
+        out = {"_bound": [first.parent_stream is sa, sat.parent_stream is sb, first is not sat]}
         for s in range(len(block)):
             try:
                 out[s] = list(sat.get_path(s))
@@ -125,6 +130,8 @@ def _oracle_akai(inputs, kind, val, env):
         if kind == "raise" and not table_is_clean(block, akai_raw_next):
             return []          # malformed table: a reported error is acceptable
         return ["oracle.decode-of-a-clean-table-must-succeed"] if kind == "raise" else []
+    if val.get("_bound") != [True, True, True]:
+        bad.append(f"oracle.each-decoded-table-is-bound-to-its-own-partition-stream({val.get('_bound')})")
     for s in range(len(block)):
         ch = wf_chain(block, s, akai_raw_next)
         if ch is not None and val.get(s) != ch:
